@@ -29,12 +29,15 @@ fn drivers(tier: Tier) -> Vec<(&'static str, Vec<&'static str>)> {
         ("C18", vec!["worker", "C18", "--tier", "quick"]),
         ("C01", vec!["worker", "C01", "--tier", "quick"]),
         ("C03", vec!["worker", "C03", "--tier", "quick"]),
+        ("C19", vec!["worker", "C19", "--tier", "quick"]),
+        ("C14", vec!["worker", "C14", "--tier", "quick"]),
+        ("C16", vec!["worker", "C16", "--tier", "quick"]),
     ];
     if tier == Tier::Thorough {
         v.push(("C02", vec!["worker", "C02", "--tier", "quick"]));
         v.push(("C05", vec!["worker", "C05", "--tier", "quick"]));
         v.push(("C13", vec!["worker", "C13", "--tier", "quick"]));
-        v.push(("C19", vec!["worker", "C19", "--tier", "quick"]));
+        v.push(("C09", vec!["worker", "C09", "--tier", "quick"]));
     }
     v
 }
